@@ -28,6 +28,7 @@ from vermouth.gmx.itp_read import read_itp, ITPDirector
 from vermouth.forcefield import ForceField
 from vermouth.molecule import Link, Choice, NotDefinedOrNot, LinkParameterEffector
 import c13_mapping
+import c13_dir
 quiet_vermouth_logs()
 
 KNOWN_IDS = {k['id'] for k in chk.known if k.get('status') == 'known'}
@@ -1628,6 +1629,8 @@ run_ff()
 run_itp()
 run_maps()
 c13_mapping.run_mapping(chk, ask)
+c13_dir.run_ffdir(chk, ask, Gen, inject, FAULTS, dump_ff, load_ff, repr_j, pending)
+c13_dir.run_mapdir(chk, ask, backmap_library)
 if chk.thorough:
     run_shipped()
 chk.extra['pending_findings'] = PENDING
